@@ -63,7 +63,7 @@ func corpus(r *rand.Rand) []string {
 		"a", "a:b", "a:5", "a:-2.5", `a:"it's"`, `name:"o'neil"`, "a:'b'", `t:"it's" AND u:"x'y'z"`, `name:"o'neil" AND NOT title:'x y'`, "a:b*", "a:?x*", "a:foo*bar?baz", "title:intro*duction?", "longpattern*?", "a:/re+/", "a:>5", "a:>=5", "a:<0.5", "a:<=-4", "a:[1 TO 5]", "a:{1 TO 5}", "a:[* TO 5]", "a:{2 TO *}",
 		"a:[1.5 TO 2.5]", "a:[aa TO zz]", "a:(x OR y OR z)", "a:(x OR x OR y)", "a:(1 OR 2 OR 1 OR 3)", "a:(x OR y OR x)", "a:[5 TO 5]", "g:(x OR y OR z*)", "a:/C:\\\\/", "a:(1 OR 2.5 OR \"z z\")", "NOT a:b", "+a:b", "-a:b", "a~", "a~2", "a^", "a^2.5", "a:b AND c:d", "a:b OR c:d", "a:b c:d e:f",
 		"(a:foo OR b:bar) AND c:baz", "a OR b AND c:[* TO -1] OR d AND NOT +e:f", `title:"The Right Way" AND go`, "x (y OR z*) -w", "a:b^2 AND foo~", `foo\ bar:b`, `a:\(1\+1\)\:2`,
-		"(a AND b", "a:[1 TO", `a:"unterminated`, "a:!", "", "AND", `f"q:b`, strings.Repeat("z", 70) + ":b", "a:\x00", "a:\xff",
+		"a:b and c:d", "a or b", "nOt x", "n:[1 to 5]", "a AnD b oR c", "not a And b", "x Or y", "m:{1 tO 5}", "a:b aNd c:d", "(a AND b", "a:[1 TO", `a:"unterminated`, "a:!", "", "AND", `f"q:b`, strings.Repeat("z", 70) + ":b", "a:\x00", "a:\xff",
 	}
 	leaves := qt.FullLeaves()
 	for i := 0; i < 40; i++ {
@@ -142,7 +142,7 @@ func coldStart(ctx *core.Ctx) {
 	}
 	coldDone = true
 	runtime.GOMAXPROCS(8)
-	qs := []string{"a:b", "a:b*", "a:[1 TO 5]", "x y", "a:(x OR y)"}
+	qs := []string{"a:b", "a:b*", "a:[1 TO 5]", "x y", "a:(x OR y)", "a and b", "n:[1 to 5] Or noT x", "a:'it''s' oR b", `k:"o'neil" and not j`}
 	start := make(chan struct{})
 	var wg sync.WaitGroup
 	out := make([]string, 16)
